@@ -261,6 +261,9 @@ def case_chi2(ctx, rng, idx):
     dom = (1, -1) if spin else (0, 1)
     init = [rng.choice(dom) for _ in range(n)]
     Ts = [rng.choice([0.6, 0.9, 1.3, 2.0, 0.4]) for _ in range(rng.randint(1, 3))]
+    if rng.random() < 0.25:
+        Ts.insert(rng.randrange(len(Ts) + 1), 0)        # a zero-temperature sweep inside a positive schedule
+        ctx.cat("chi2:with-zero-temperature-step")
     in_order = rng.random() < 0.5
     N = 100000
     kw = dict(schedule=Ts, initial_state=dict(enumerate(init)), in_order=in_order, num_anneals=N, seed=rng.randrange(1, 10 ** 6))
